@@ -93,6 +93,11 @@ def confirm(name, suite):
         res["demo_clean_exit"] = rc
         res["demo_clean_tail"] = out[-600:]
         rc, out = sh(["git", "apply", os.path.join(sdir, "patch.diff")], wt)
+        if rc != 0:
+            # hook lines added to /repo after the patch was written may sit in its context: merge three-way
+            rc, out = sh(["git", "apply", "--3way", os.path.join(sdir, "patch.diff")], wt)
+            sh(["git", "reset", "-q"], wt)
+            res["applied_three_way"] = rc == 0
         res["applies"] = rc == 0
         if rc != 0:
             res["error"] = out[-400:]
